@@ -11,20 +11,41 @@ PRICE_TOML = '[price]\ndb-path = "prices.db"\nlookup-type = "last-price"'
 
 # equity account names: invalid ones must be rejected by Settings when the equity export is a target (F20)
 INVALID_EQA = ["Equity Opening", "", "a:", ":a", "1abc", "a b:c", "a\tb", "Equity\t:x", "a: b", "a:\tb", "a :b", " a", "a ",
-               "-a", "_a", "·a", "a:-b", "a:_b", "a:·b", "a::b", ":", "a:b c", "a\u00a0b", "a:\u2003b"]
+               "-a", "_a", "·a", "a:-b", "a:_b", "a:·b", "a::b", ":", "a:b c", "a\u00a0b", "a:\u2003b",
+               # is_valid_id / is_valid_sub_id let these through, the journal grammar does not (F20, 2cae891)
+               "a!b", "!x", "a:b!", "Equity(x)", "a;b", "a@b", "E=x", "a#b", "a,b", "a'b", 'a"b', "a{b", "(a)", "a.b", "a/b",
+               "a:b*", "a+b", "Equity:Opening?", "a\u1680b", "a\u2028b", "x:\u00d7"]
 VALID_ODD_EQA = ["é:x", "a-b:1", "A:2b", "a:1", "a:²", "²a", "a_b:c-d", "€uro:x·y"]
 WS = set([0x85, 0xa0, 0x1680, 0x2028, 0x2029, 0x202f, 0x205f, 0x3000, 32] + list(range(9, 14)) + list(range(0x2000, 0x200b)))
 
 
+def _rng(lo, hi, c):
+    return lo <= c <= hi
+
+
+def id_start(c):
+    """Journal.id_start (identifier.rs)"""
+    return (_rng(97, 122, c) or _rng(65, 90, c) or c == 36 or _rng(162, 165, c) or _rng(192, 214, c) or _rng(216, 246, c)
+            or _rng(248, 767, c) or _rng(880, 893, c) or _rng(895, 8191, c) or _rng(8204, 8205, c) or _rng(8304, 8591, c)
+            or _rng(11264, 12271, c) or _rng(12289, 55295, c) or _rng(63744, 64975, c) or _rng(65008, 65533, c)
+            or c in (181, 185, 178, 179, 176) or _rng(188, 190, c))
+
+
+def id_char(c):
+    """Journal.id_char"""
+    return id_start(c) or _rng(48, 57, c) or c in (95, 45, 183) or _rng(768, 879, c) or _rng(8255, 8256, c)
+
+
 def eq_account_ok(name):
-    """python mirror of Equity_spec.eq_account_ok (the Coq predicate is evaluated on every case as well)"""
-    for i, comp in enumerate(name.split(":")):
-        if comp == "" or any(ord(ch) in WS for ch in comp):
+    """python mirror of Equity_spec.eq_account_ok2 (the Coq predicate is evaluated on every case as well):
+    an account name of the journal grammar (Journal_spec.name_ok) accepted by AccountTreeNode::from"""
+    comps = name.split(":")
+    for i, comp in enumerate(comps):
+        if comp == "" or any(ord(ch) in WS for ch in comp) or not all(id_char(ord(ch)) for ch in comp):
             return False
-        c = comp[0]
-        if c in "-_·" or (i == 0 and c in "0123456789"):
+        if comp[0] in "-_·":
             return False
-    return True
+    return id_start(ord(comps[0][0]))
 
 
 def toml_str(x):
@@ -220,9 +241,17 @@ def main(run):
     run.cov["rule"] = ("corpus + seeded journals (1-7 txns, 0-3 commodities incl. none, account trees depth<=4, priced postings in 30%, "
                        "equal time stamps in 30%, audit+uuid in 30%, transaction filter in 25%); selectors: none / exact names / string prefixes / everything / "
                        "nothing, 25% via --accounts; equity account outside or inside the journal, 8% unusual valid names, 8% invalid names "
-                       "(white space, empty components, bad first character: must be rejected at the settings stage); 15% with price conversion configured; "
+                       "(white space, empty components, bad first character, characters outside the identifier classes: must be rejected at the settings stage); 15% with price conversion configured; "
                        "source and export each run through the harness (export parsed back with audit off); non-trivial = non-empty export; "
                        "distinct = distinct export texts")
+    # extra stage (extension T02, DESIGN section 12): the export TEXT against EquityText.print_equity, byte for byte
+    import t02_text
+    ok_t, log_t = coq_make(["props/T02.vo"])
+    if not ok_t:
+        run.violation("proof obligation does not check: props/T02.v (equity export text model) failed to build",
+                      {"theorem_file": "coq/props/T02.v", "log": log_t[-2000:]}, found_input=False)
+    else:
+        t02_text.run_text_stage(run, n=(30 if run.tier == "quick" else 400))
     return run.finish(info)
 
 
@@ -299,7 +328,7 @@ def evaluate(run, cases):
         if kind == "name":
             agree = bool(bits & 1)
             if agree != (c["name_ok"] == c["accepted"]):
-                raise Infra("python and Coq eq_account_ok differ on %r" % c["eqa"])
+                raise Infra("python and Coq eq_account_ok2 differ on %r" % c["eqa"])
             if agree:
                 names["valid_accepted" if c["accepted"] else "invalid_rejected"] += 1
                 if not c["accepted"]:
@@ -310,11 +339,11 @@ def evaluate(run, cases):
                     run.violation("equity export written with an invalid equity account name is not accepted as a journal "
                                   "(the configuration should have been rejected)", replay_obj(c))
                 else:
-                    run.violation("Settings accepted an equity account name outside Equity_spec.eq_account_ok "
+                    run.violation("Settings accepted an equity account name outside Equity_spec.eq_account_ok2 "
                                   "(no unreadable export on this input)",
                                   dict(replay_obj(c), correspondence="C10_corr.c10_name_case"), found_input=False)
             else:
-                run.violation("a grammar-valid equity account name (Equity_spec.eq_account_ok) is rejected by the configuration",
+                run.violation("a grammar-valid equity account name (Equity_spec.eq_account_ok2) is rejected by the configuration",
                               dict(replay_obj(c), correspondence="C10_corr.c10_name_case", stage_error=c.get("stage_err")), found_input=False)
             continue
         run.cov["evaluations"] += 1
